@@ -43,7 +43,8 @@ THEOREMS = ["link_tables", "validTree_iff", "validTree_connects", "aStar_path", 
             # round 2: cross-model consistency with C11 and what it buys
             "cross_link_tables", "cross_lengths", "cross_torusPath", "cross_ldf", "cross_hexagons",
             "cross_linksBetween", "meshLen_is_distance", "torusLen_is_distance", "hexagons_exact", "torus_route",
-            "mesh_route", "forest_unfolds", "nerNet_valid", "nerNet_only_oracle_errors"]
+            "mesh_route", "forest_unfolds", "nerNet_valid", "nerNet_only_oracle_errors", "routeNet_faultfree",
+            "aStar_complete"]
 
 RULE = ("machines 1x1..12x12 (incl. 1xN, 2xN), torus / mesh / partly wrapped, 0-30% dead directed links (half of them "
         "dead in one direction only), dead chips; one net per case with fan-out 0-12, sinks on the source chip, "
